@@ -166,6 +166,7 @@ def skip_sets(maxsize):
 
 def items(tier):
     sq = [s for s in corpus.small_slice(max_lines=25)]
+    sqset = set(sq)
     fixs = corpus.seed_ids(("fix",))
     smallest = sorted(sq, key=lambda s: (len(corpus.lines_of(s)), s))[:12]
     out = []
@@ -173,13 +174,13 @@ def items(tier):
     for s in seeds:
         for st in universe.K0:
             out.append(universe.mk(s, (), st, None, kind="gate"))
-        for sk in skip_sets(2)[1:]:
+        for sk in skip_sets(2 if s in sq else 1)[1:]:
             out.append(dict(universe.mk(s, (), None, None, kind="gate"), skip=sk, id=f"{s}#gate#skip{sk}"))
         out.append(universe.mk(s, (), None, None, kind="fixphase"))
         out[-1]["id"] += "#fixphase"
         if tier != "quick":
             out.append(dict(universe.mk(s, (), "jcl", None, kind="fixphase"), id=f"{s}%jcl#fixphase"))
-        for sk in skip_sets(1)[1:]:
+        for sk in (skip_sets(1)[1:] if s in sq else []):
             out.append(dict(universe.mk(s, (), None, None, kind="fixphase"), skip=sk, id=f"{s}#fixphase#skip{sk}", Ns=[3, 7] if tier == "quick" else list(range(1, 8))))
     for s in smallest:
         for sk in skip_sets(7):
